@@ -110,9 +110,18 @@ func (e *Engine) effectsOnce(fn *ssa.Function, res *effSet) {
 			case *ssa.MapUpdate:
 				mt := types.Unalias(x.Map.Type()).Underlying().(*types.Map)
 				ks, vs := so.Sort(mt.Key()), so.Sort(mt.Elem())
-				res.keys["Md:"+ks] = true
-				res.keys["Mv:"+ks+":"+vs] = true
-				res.keys["Mc"] = true
+				if mm, isNew := x.Map.(*ssa.MakeMap); isNew && e.localOnly(mm) {
+					// update of a map the function created itself and that never leaves it
+				} else if isNew {
+					// update of a map the function created itself
+					res.addFresh(mapDomKey(ks, vs))
+					res.addFresh(mapValKey(ks, vs))
+					res.addFresh(mapCardKey(ks, vs))
+				} else {
+					res.keys[mapDomKey(ks, vs)] = true
+					res.keys[mapValKey(ks, vs)] = true
+					res.keys[mapCardKey(ks, vs)] = true
+				}
 			case *ssa.Call:
 				e.callEffect(&x.Call, res)
 			case *ssa.Defer:
@@ -137,7 +146,7 @@ func (e *Engine) storeEffect(addr ssa.Value, res *effSet) {
 			}
 			// fresh object: invisible to the caller unless it escapes; over-approximate by type
 			et := x.Type().(*types.Pointer).Elem()
-			if _, isS := isStructType(et); !isS {
+			if _, isS := isStructType(et); !isS && !e.localOnly(x) {
 				res.addFresh(cellKeyOf(so, et))
 			}
 			return
@@ -172,7 +181,7 @@ func (e *Engine) storeEffect(addr ssa.Value, res *effSet) {
 				v = r
 				continue
 			case *ssa.Alloc:
-				if r.Heap {
+				if r.Heap && !e.localOnly(r) {
 					for _, k := range keys {
 						res.addFresh(k)
 					}
@@ -255,8 +264,8 @@ func (e *Engine) callEffect(c *ssa.CallCommon, res *effSet) {
 			}
 		case "delete":
 			mt := types.Unalias(c.Args[0].Type()).Underlying().(*types.Map)
-			res.keys["Md:"+so.Sort(mt.Key())] = true
-			res.keys["Mc"] = true
+			res.keys[mapDomKey(so.Sort(mt.Key()), so.Sort(mt.Elem()))] = true
+			res.keys[mapCardKey(so.Sort(mt.Key()), so.Sort(mt.Elem()))] = true
 		}
 		return
 	case *ssa.Function:
@@ -336,9 +345,9 @@ func (e *Engine) stdlibEffects(fn *ssa.Function, res *effSet) {
 			reach(u.Elem(), true)
 		case *types.Map:
 			ks, vs := so.Sort(u.Key()), so.Sort(u.Elem())
-			res.keys["Md:"+ks] = true
-			res.keys["Mv:"+ks+":"+vs] = true
-			res.keys["Mc"] = true
+			res.keys[mapDomKey(ks, vs)] = true
+			res.keys[mapValKey(ks, vs)] = true
+			res.keys[mapCardKey(ks, vs)] = true
 			reach(u.Elem(), true)
 		case *types.Struct:
 			for i := 0; i < u.NumFields(); i++ {
